@@ -258,7 +258,14 @@ func (m *Message) wrapErrorUnpack(src []byte) error {
 func (m *Message) unpack(src []byte) (string, error) {
 	var off int
 
-	// reset fields that were set
+	// reset fields that were set: their values (and the subfields of
+	// composites) are discarded as UnsetField does, so that nothing written
+	// before this call comes back when a field is populated again
+	for id := range m.fieldsMap {
+		if id != mtiIdx && id != bitmapIdx {
+			m.unsetField(id)
+		}
+	}
 	m.fieldsMap = map[int]struct{}{}
 
 	// This method implicitly also sets m.fieldsMap[bitmapIdx]
